@@ -15,8 +15,15 @@ import CpProofs.Opp
                     consistent and carries the same information);
     * `…_framing`   for the stream framing units: consumed ≤ available, > 0, self-delimiting, every
                     proper prefix rejected with a missing-byte count between 1 and the truth.
-  Two clauses are FALSE of the code as it stands (known findings `cotp-ref-order`, `rdp-zero-flag`); each is kept at full strength as a `def …_full`,
-  refuted with a concrete witness, and accompanied by the strongest true `_partial`.
+  One clause is FALSE of the code as it stands (known finding `cotp-ref-order`, pinned by the
+  repository's test_rdp); it is kept at full strength as a `def …_full`, refuted with a concrete
+  witness, and accompanied by the strongest true `_partial`.
+  Two former findings are repaired in the code and are theorems now: the round trip of an RDP
+  negotiation message over EVERYTHING the constructor accepts (`rdpNeg_roundtrip_full`: the
+  constructor drops the zero-valued `RDPProtocol.RDP`), and the second part of the MySQL auth plugin
+  data (`mysql_handshakeV10_part2_parsed`, `…_composed`, `…_len_rule`: `MAX(13, len - 8)` bytes with
+  `CLIENT_PLUGIN_AUTH`, 13 with `CLIENT_SECURE_CONNECTION` alone as servers before 5.5.7 send it);
+  the former witnesses are kept as regression `example`s.
   LDAP StartTLS is outside the model (asn1crypto); its two encodings are specification constants
   compared with the implementation by the correspondence check.
 -/
@@ -153,6 +160,10 @@ theorem mysql_capability_split (sel : List Nat) (hsub : sel.Sublist capExps) (X 
 
 /-! ### MySQL `HandshakeV10` -/
 
+/-- The three kinds of greeting (`mySqlV10Wf`): with `CLIENT_PLUGIN_AUTH` a second part of 13..247
+octets, its length + 8 in the length octet, and the plugin name; with `CLIENT_SECURE_CONNECTION`
+alone (servers before 5.5.7) the length octet `00` and a second part of 13 octets; with neither, no
+second part.  The composed octets are the specification's. -/
 theorem mysql_handshakeV10_layout (h : Cp.Opp.MySqlHandshakeV10) (hw : mySqlV10Wf h) :
     composeMySqlHandshakeV10 h = .ok (encodeMySqlHandshakeV10 h.toSpec) := composeMySqlHandshakeV10_spec h hw
 
@@ -164,6 +175,42 @@ theorem mysql_handshakeV10_roundtrip (h : Cp.Opp.MySqlHandshakeV10) (hw : mySqlV
 theorem mysql_handshakeV10_spec (x : Spec.Opp.MySqlHandshakeV10) (s : Bytes) (h : x.wf) :
     decodeMySqlHandshakeV10 (encodeMySqlHandshakeV10 x ++ s) = some (x, (encodeMySqlHandshakeV10 x).length) :=
   mySqlHandshakeV10_spec_roundtrip x s h
+
+/-- The length rule of `auth-plugin-data-part-2` (repaired; it used to be `len - 8` octets, read only
+with `CLIENT_PLUGIN_AUTH`): `MAX(13, len - 8)` octets with `CLIENT_PLUGIN_AUTH` — 13 for every length
+octet up to 21 —; 13 octets with `CLIENT_SECURE_CONNECTION` alone, whatever the filler in the length
+octet; none with neither capability. -/
+theorem mysql_handshakeV10_len_rule (caps : List Nat) (len : Nat) :
+    (caps.contains CLIENT_PLUGIN_AUTH = true → authPluginData2Len caps len = max 13 (len - 8)) ∧
+    (caps.contains CLIENT_PLUGIN_AUTH = true → len ≤ 21 → authPluginData2Len caps len = 13) ∧
+    (caps.contains CLIENT_PLUGIN_AUTH = false → caps.contains CLIENT_SECURE_CONNECTION = true →
+      authPluginData2Len caps len = 13) ∧
+    (caps.contains CLIENT_PLUGIN_AUTH = false → caps.contains CLIENT_SECURE_CONNECTION = false →
+      authPluginData2Len caps len = 0) := by
+  unfold authPluginData2Len
+  refine ⟨fun h => by rw [if_pos h], fun h hl => by rw [if_pos h]; omega, fun h h' => ?_, fun h h' => ?_⟩
+  · rw [if_neg (by rw [h]; decide), if_pos h']
+  · rw [if_neg (by rw [h]; decide), if_neg (by rw [h']; decide)]
+
+/-- Every greeting the parser accepts has the second part the documentation gives it: 13..247 octets
+and a plugin name with `CLIENT_PLUGIN_AUTH`, 13 octets and no name with `CLIENT_SECURE_CONNECTION`
+alone, neither otherwise; its length is the rule's value at a length octet below 256. -/
+theorem mysql_handshakeV10_part2_parsed (bs : Bytes) (h : Cp.Opp.MySqlHandshakeV10) (n : Nat)
+    (hp : parseMySqlHandshakeV10 bs = .ok (h, n)) :
+    v10Part2Ok h ∧ ∃ len, len < 256 ∧
+      (data2Bytes h.authPluginData2).length = authPluginData2Len h.capabilities len :=
+  parseMySqlHandshakeV10_part2 hp
+
+/-- `compose` writes only what `_parse` reads back (repaired: a second part without either capability
+used to be written behind a zero length octet, one shorter than 13 octets behind its own length):
+whenever it succeeds, the second part has the length the capabilities call for. -/
+theorem mysql_handshakeV10_part2_composed (h : Cp.Opp.MySqlHandshakeV10) (b : Bytes)
+    (hc : composeMySqlHandshakeV10 h = .ok b) :
+    (if h.capabilities.contains CLIENT_PLUGIN_AUTH = true then
+      13 ≤ (data2Bytes h.authPluginData2).length ∧ (data2Bytes h.authPluginData2).length ≤ 247 ∧
+        ∃ nm, h.authPluginName = some nm
+     else if h.capabilities.contains CLIENT_SECURE_CONNECTION = true then (data2Bytes h.authPluginData2).length = 13
+     else (data2Bytes h.authPluginData2).length = 0) := composeMySqlHandshakeV10_part2 hc
 
 /-- Null-terminated strings: every text the composer accepts comes back, with exactly the composed
 octets consumed, whatever follows. -/
@@ -251,22 +298,53 @@ theorem rdpNeg_type_on_wire (want : RdpNegClass) (bs : Bytes) (r : Cp.Opp.RdpNeg
 theorem rdpNeg_spec (x : Spec.Opp.RdpNeg) (s : Bytes) (h : x.wf) : decodeRdpNeg (encodeRdpNeg x ++ s) = some (x, 8) :=
   rdpNeg_spec_roundtrip x s h
 
-/-- what the validators of `RDPNegotiationBase` accept -/
-def rdpNegConstructible (r : Cp.Opp.RdpNeg) : Prop :=
-  (∀ f ∈ r.flags, f ∈ r.cls.flagCodes) ∧ (∀ p ∈ r.protocol, p ∈ Gen.RDPProtocol.codes)
+/-- Round trip over EVERYTHING the constructor accepts (`rdpNegConstructible`: flags of the class's
+enumeration and members of `RDPProtocol`, the zero-valued `RDP` included, in any order and with
+repetitions — the arguments are Python iterables).  Repaired: the constructor drops `RDPProtocol.RDP`
+(`RdpNeg.construct`), so the constructed value composes, and its octets — whatever follows them —
+parse to a message of the same class with the same SET of flags and the same SET of protocols, in
+member order (`rdpNegWf`).  It used to be false: `{RDP}` composed to the zero field and parsed back
+as the empty set. -/
+theorem rdpNeg_roundtrip_full (cls : RdpNegClass) (flags protocol : List Nat)
+    (hc : rdpNegConstructible cls flags protocol) (s : Bytes) :
+    ∃ b r', composeRdpNeg (RdpNeg.construct cls flags protocol) = .ok b ∧ b.length = 8 ∧
+      parseRdpNeg cls (b ++ s) = .ok (r', 8) ∧ r'.cls = cls ∧ rdpNegWf r' ∧
+      (∀ x, x ∈ r'.flags ↔ x ∈ (RdpNeg.construct cls flags protocol).flags) ∧
+      (∀ x, x ∈ r'.protocol ↔ x ∈ (RdpNeg.construct cls flags protocol).protocol) := by
+  have hw := rdpNegCanon_wf cls flags protocol
+  refine ⟨encodeRdpNeg (rdpNegCanon cls flags protocol).toSpec, rdpNegCanon cls flags protocol, ?_, ?_, ?_, rfl, hw, ?_, ?_⟩
+  · rw [composeRdpNeg_canon cls flags protocol hc]; exact composeRdpNeg_spec _ hw
+  · simp [encodeRdpNeg]
+  · exact parseRdpNeg_encode _ s hw
+  · intro x
+    exact mem_canonSel_map _ _ (fun v hv => by rw [← rdp_flagCodes]; exact hc.1 v hv) x
+  · intro x
+    exact mem_canonSel_map _ _ (rdp_protocol_nonzero hc.2) x
 
-/-- Round trip over everything the constructor accepts.  False: `RDPProtocol.RDP` has the value 0,
-adds nothing to the composed word and can never be produced by `parse_numeric_flags`. -/
-def rdpNeg_roundtrip_full : Prop :=
-  ∀ (r : Cp.Opp.RdpNeg) (b : Bytes), rdpNegConstructible r → composeRdpNeg r = .ok b → parseRdpNeg r.cls b = .ok (r, b.length)
-
-theorem rdpNeg_roundtrip_full_fails : ¬ rdpNeg_roundtrip_full := by
+/-- `{RDP}` and `set()` are one value: the zero-valued member changes nothing in what is constructed -/
+theorem rdpNeg_zero_member_dropped (cls : RdpNegClass) (flags protocol : List Nat) :
+    RdpNeg.construct cls flags (0 :: protocol) = RdpNeg.construct cls flags protocol ∧
+    0 ∉ (RdpNeg.construct cls flags protocol).protocol := by
+  refine ⟨by simp [RdpNeg.construct], ?_⟩
   intro h
-  have h1 : composeRdpNeg ⟨.request, [], [0]⟩ = .ok [1, 0, 8, 0, 0, 0, 0, 0] := by decide
-  have h2 := h _ _ ⟨by decide, by decide⟩ h1
-  have h3 : parseRdpNeg .request [1, 0, 8, 0, 0, 0, 0, 0] = .ok (⟨.request, [], []⟩, 8) := by decide
-  rw [h3] at h2
-  exact absurd h2 (by decide)
+  have := (List.mem_filter.mp h).2
+  simp at this
+
+/-- and a message given in member order comes back as the very same value -/
+theorem rdpNeg_roundtrip_exact (cls : RdpNegClass) (fsel psel : List Nat) (hf : fsel.Sublist cls.flagExps)
+    (hp : psel.Sublist rdpProtocolExps) (zeros : Nat) (s : Bytes) :
+    let r := RdpNeg.construct cls (fsel.map (2 ^ ·)) (List.replicate zeros 0 ++ psel.map (2 ^ ·))
+    ∃ b, composeRdpNeg r = .ok b ∧ parseRdpNeg cls (b ++ s) = .ok (r, 8) := by
+  have hr : RdpNeg.construct cls (fsel.map (2 ^ ·)) (List.replicate zeros 0 ++ psel.map (2 ^ ·)) =
+      ⟨cls, fsel.map (2 ^ ·), psel.map (2 ^ ·)⟩ := by
+    unfold RdpNeg.construct
+    rw [List.filter_append, filter_pow_ne_zero]
+    have : (List.replicate zeros 0).filter (· != 0) = [] := by
+      rw [List.filter_eq_nil_iff]; intro a ha; rw [List.eq_of_mem_replicate ha]; decide
+    rw [this, List.nil_append]
+  have hw : rdpNegWf ⟨cls, fsel.map (2 ^ ·), psel.map (2 ^ ·)⟩ := ⟨fsel, psel, hf, hp, rfl, rfl⟩
+  simp only [hr]
+  exact ⟨_, composeRdpNeg_spec _ hw, parseRdpNeg_encode _ s hw⟩
 
 /-- no parse of any flag field ever yields a zero-valued member (any member table, any width) -/
 theorem flags_never_zero (bo : ByteOrder) (k sh : Nat) (members : List Nat) (rest : Bytes) (hits : List Nat) (n : Nat)
@@ -365,7 +443,14 @@ example : rdpNegWf ⟨.response, [2 ^ 0, 2 ^ 3], [2 ^ 1]⟩ :=
 example : composeRdpNeg ⟨.response, [1, 8], [2]⟩ = .ok [2, 9, 8, 0, 2, 0, 0, 0] := by decide
 example : parseRdpNeg .response [2, 9, 8, 0, 2, 0, 0, 0] = .ok (⟨.response, [1, 8], [2]⟩, 8) := by decide
 example : parseRdpNeg .request [2, 9, 8, 0, 2, 0, 0, 0] = .error .invalidType := by decide
-example : rdpNegConstructible ⟨.request, [], [0]⟩ := ⟨by decide, by decide⟩
+-- the former witness of `rdp-zero-flag`: `RDPNegotiationRequest(set(), {RDPProtocol.RDP})` is constructible, is the
+-- value with the empty protocol set, composes to the zero field and parses back as itself
+example : rdpNegConstructible .request [] [0] := ⟨by decide, by decide⟩
+example : RdpNeg.construct .request [] [0] = ⟨.request, [], []⟩ := by decide
+example : composeRdpNeg (RdpNeg.construct .request [] [0]) = .ok [1, 0, 8, 0, 0, 0, 0, 0] := by decide
+example : parseRdpNeg .request [1, 0, 8, 0, 0, 0, 0, 0] = .ok (RdpNeg.construct .request [] [0], 8) := by decide
+example : RdpNeg.construct .response [] [2, 0, 1, 0] = ⟨.response, [], [2, 1]⟩ := by decide
+example : parseRdpNeg .response [2, 0, 8, 0, 3, 0, 0, 0] = .ok (⟨.response, [], [1, 2]⟩, 8) := by decide
 
 example : ovpnWf (.hardResetServer ⟨1, [3, 4], some 2⟩ 9) := by
   refine ⟨⟨by decide, by decide, by decide, by decide, by decide⟩, by decide⟩
@@ -381,6 +466,64 @@ example : composeMySqlSslRequest ⟨[2 ^ 9, 2 ^ 11, 2 ^ 19], 2 ^ 24, some 8⟩ =
     .ok ([0x00, 0x0a, 0x08, 0x00, 0, 0, 0, 1, 8] ++ List.replicate 23 0) := by decide
 example : mySqlSslWf ⟨[2 ^ 11], 0xffffff, none⟩ := ⟨[11], by decide, rfl, by decide⟩
 example : parseMySqlSslRequest [0x00, 0x08, 0xff, 0xff, 0xff] = .ok (⟨[2048], 0xffffff, none⟩, 5) := by decide
+
+/-! ### MySQL `HandshakeV10`: the former findings as regression examples -/
+
+/-- `0a "5.1.73" 00 | 09000000 | "abcdefgh" | 00 | caps lo | 08 | 0200 | caps hi | len | 10 x 00` -/
+def v10Head (capsLo capsHi len : Bytes) : Bytes :=
+  [0x0a, 0x35, 0x2e, 0x31, 0x2e, 0x37, 0x33, 0x00, 0x09, 0, 0, 0, 0x61, 0x62, 0x63, 0x64, 0x65, 0x66, 0x67, 0x68, 0x00] ++
+    capsLo ++ [0x08, 0x02, 0x00] ++ capsHi ++ len ++ List.replicate 10 0
+
+/-- twelve scramble octets and the terminating NUL: what a server sends as `auth-plugin-data-part-2` -/
+def v10Scramble : Bytes := [0x69, 0x6a, 0x6b, 0x6c, 0x6d, 0x6e, 0x6f, 0x70, 0x71, 0x72, 0x73, 0x74, 0x00]
+
+/-- second part, plugin name, consumed length -/
+def v10View (r : Except PErr (Cp.Opp.MySqlHandshakeV10 × Nat)) : Except PErr (Option Bytes × Option Bytes × Nat) :=
+  r.map fun (h, n) => (h.authPluginData2, h.authPluginName, n)
+
+-- the greeting of a MySQL 5.1 server (capabilities 0xf7ff: CLIENT_SECURE_CONNECTION, no CLIENT_PLUGIN_AUTH): the 13
+-- octets behind the reserved ones are read (it used to be TooMuchData under parse_exact_size: 39 of 52 consumed)
+example : v10View (parseMySqlHandshakeV10 (v10Head [0xff, 0xf7] [0, 0] [0] ++ v10Scramble)) =
+    .ok (some v10Scramble, none, 52) := by decide
+-- the length octet is a filler there
+example : v10View (parseMySqlHandshakeV10 (v10Head [0xff, 0xf7] [0, 0] [77] ++ v10Scramble ++ [1, 2])) =
+    .ok (some v10Scramble, none, 52) := by decide
+example : parseMySqlHandshakeV10 (v10Head [0xff, 0xf7] [0, 0] [0] ++ v10Scramble.take 12) = .error (.notEnough 1) := by decide
+-- CLIENT_PLUGIN_AUTH (bit 19), length octet 21, 8 and 3: MAX(13, len - 8) = 13 octets, then the plugin name "x"
+-- (with 8 the thirteen octets used to be taken for the plugin name; 3 used to be an InvalidValue)
+example : v10View (parseMySqlHandshakeV10 (v10Head [0x00, 0x80] [0x08, 0] [21] ++ v10Scramble ++ [0x78, 0])) =
+    .ok (some v10Scramble, some [0x78], 54) := by decide
+example : v10View (parseMySqlHandshakeV10 (v10Head [0x00, 0x80] [0x08, 0] [8] ++ v10Scramble ++ [0x78, 0])) =
+    .ok (some v10Scramble, some [0x78], 54) := by decide
+example : v10View (parseMySqlHandshakeV10 (v10Head [0x00, 0x00] [0x08, 0] [3] ++ v10Scramble ++ [0x78, 0])) =
+    .ok (some v10Scramble, some [0x78], 54) := by decide
+example : v10View (parseMySqlHandshakeV10 (v10Head [0x00, 0x00] [0x08, 0] [22] ++ 0x41 :: v10Scramble ++ [0x78, 0])) =
+    .ok (some (0x41 :: v10Scramble), some [0x78], 55) := by decide
+-- CLIENT_PLUGIN_AUTH with the length octet 0 stays an InvalidValue (pinned by test_mysql)
+example : parseMySqlHandshakeV10 (v10Head [0x00, 0x80] [0x08, 0] [0] ++ v10Scramble ++ [0x78, 0]) = .error .invalidValue := by
+  decide
+-- neither capability: nothing behind the reserved octets
+example : v10View (parseMySqlHandshakeV10 (v10Head [0x00, 0x08] [0, 0] [0] ++ v10Scramble)) = .ok (none, none, 39) := by decide
+-- compose refuses a second part that would not be read back as written
+example : composeMySqlHandshakeV10 ⟨10, [0x35], 9, [1, 2, 3, 4, 5, 6, 7, 8], [2 ^ 19], 8, [], some [1, 2, 3], some [0x78]⟩ =
+    .error .invalidValue := by decide
+example : composeMySqlHandshakeV10 ⟨10, [0x35], 9, [1, 2, 3, 4, 5, 6, 7, 8], [2 ^ 15], 8, [], none, none⟩ =
+    .error .invalidValue := by decide
+example : composeMySqlHandshakeV10 ⟨10, [0x35], 9, [1, 2, 3, 4, 5, 6, 7, 8], [2 ^ 15], 8, [], some (0x41 :: v10Scramble), none⟩ =
+    .error .invalidValue := by decide
+example : composeMySqlHandshakeV10 ⟨10, [0x35], 9, [1, 2, 3, 4, 5, 6, 7, 8], [2 ^ 11], 8, [], some [1], none⟩ =
+    .error .invalidValue := by decide
+-- and writes a pre-5.5.7 greeting as the documentation lays it out: length octet 00, thirteen octets
+example : composeMySqlHandshakeV10 ⟨10, [0x35], 9, [1, 2, 3, 4, 5, 6, 7, 8], [2 ^ 15], 8, [2], some v10Scramble, none⟩ =
+    .ok ([0x0a, 0x35, 0, 9, 0, 0, 0, 1, 2, 3, 4, 5, 6, 7, 8, 0, 0x00, 0x80, 8, 2, 0, 0, 0, 0] ++ List.replicate 10 0 ++
+      v10Scramble) := by decide
+-- both kinds are inside the domain of the round-trip theorem
+example : mySqlV10Wf ⟨10, [0x35], 9, [1, 2, 3, 4, 5, 6, 7, 8], [2 ^ 11, 2 ^ 15], 8, [2 ^ 1], some v10Scramble, none⟩ :=
+  ⟨by decide, by decide, by decide, by decide, rfl, by decide, [11, 15], [1], by decide, rfl, by decide, rfl,
+    by simp [v10Scramble]⟩
+example : mySqlV10Wf ⟨10, [0x35], 9, [1, 2, 3, 4, 5, 6, 7, 8], [2 ^ 15, 2 ^ 19], 8, [], some v10Scramble, some [0x78]⟩ :=
+  ⟨by decide, by decide, by decide, by decide, rfl, by decide, [15, 19], [], by decide, rfl, by decide, rfl,
+    by simp [v10Scramble, isAscii]⟩
 
 -- two TPKTs delivered in three arbitrary pieces
 example : (Reader.run tpktCodec [[3, 0, 0], [5, 9, 3, 0, 0], [4]]).out = [⟨3, [9]⟩, ⟨3, []⟩] := by decide
